@@ -175,6 +175,8 @@ func runC06(cfg config) {
 			{"CExists", "'i'.exists(" + o.expr + ")", false},
 			{"CAll", "'i'.all(" + o.expr + ")", false},
 			{"CIif", "iif(" + o.expr + ", true, false)", false},
+			{"CIif", "iif(" + o.expr + ", true).exists()", false}, // two-argument form: same criterion rule, no otherwise-result
+			{"CIif", "iif(" + o.expr + ", 1, 2) = 1", false},
 		} {
 			if strings.HasPrefix(o.expr, "Patient.") {
 				// inside where/exists/all the criterion's input is the item 'i', not the resource:
